@@ -229,11 +229,13 @@ def _srem(a, b, n):
 
 
 _CT = {}
-CT_MAX = 160
+CT_MAX = 64     # largest leaf product that is lifted through two constant trees
+CT_BIG = 200    # largest constant tree that is still recognised as one (value sets, compaction)
+CT_VALS = 40    # compaction / value-wise arithmetic only for terms with at most this many distinct values (positions, not bytes)
 
 
 def _ctree(t):
-    """number of constant leaves if t is a tree of ite nodes over constants (<= CT_MAX leaves), else 0"""
+    """number of constant leaves if t is a tree of ite nodes over constants (<= CT_BIG leaves), else 0"""
     r = _CT.get(t.id)
     if r is not None:
         return r
@@ -259,7 +261,7 @@ def _ctree(t):
             if b is None:
                 stack.append(x.args[2])
                 continue
-            _CT[x.id] = (a + b) if (b and a + b <= CT_MAX) else 0
+            _CT[x.id] = (a + b) if (b and a + b <= CT_BIG) else 0
             stack.pop()
         else:
             _CT[x.id] = 0
@@ -303,23 +305,33 @@ def compact(t):
     if r is not None:
         return r
     vs = sorted(leaves(t))
-    if len(vs) >= n:
+    if len(vs) >= n or len(vs) > CT_VALS:
         r = t
     else:
         r = BitVecVal(vs[-1], t.srt)
         for v in reversed(vs[:-1]):
             cv = BitVecVal(v, t.srt)
-            r = If(Eq(t, cv), cv, r)
+            r = If(_eq_const(t, cv), cv, r)
     _CMP[t.id] = r
     return r
+
+
+def _eq_const(t, cv):
+    """t == cv for a constant tree t of any size, as a condition over the selectors (no compaction: used by it)"""
+    return _lift1(lambda leaf: leaf is cv, ('=c', cv.id), t)
+
+
+def _liftable(ca, cb):
+    """both constant trees and cheap enough to lift (small leaf product)"""
+    return bool(ca and cb and ca * cb <= CT_MAX)
 
 
 def _compact2(a, b):
     """both operands compacted when their leaf product is too large; returns operands (possibly unchanged)"""
     ca, cb = _ctree(a), _ctree(b)
-    if ca and cb and ca * cb > CT_MAX:
+    if ca and cb and not _liftable(ca, cb):
         a2, b2 = compact(a), compact(b)
-        if _ctree(a2) * _ctree(b2) <= CT_MAX:
+        if _liftable(_ctree(a2), _ctree(b2)):
             return a2, b2
     return a, b
 
@@ -328,17 +340,17 @@ def _bin_by_values(op, a, b):
     """a op b for two constant trees whose leaf product is too large to lift: computed per pair of VALUES and returned
     as a decision list with one leaf per distinct result (sums of positions have few distinct values)"""
     va, vb = sorted(leaves(a)), sorted(leaves(b))
-    if len(va) * len(vb) > 4096:
+    if len(va) > CT_VALS or len(vb) > CT_VALS:
         return None
     n = a.srt
     conds = {}
     for x in va:
-        ex = Eq(a, BitVecVal(x, n))
+        ex = _eq_const(a, BitVecVal(x, n))
         for y in vb:
             v = _FOLD[op](x, y, n)
-            c = And(ex, Eq(b, BitVecVal(y, n)))
+            c = And(ex, _eq_const(b, BitVecVal(y, n)))
             conds[v] = Or(conds[v], c) if v in conds else c
-    if len(conds) > CT_MAX:
+    if len(conds) > CT_BIG:
         return None
     vs = sorted(conds)
     r = BitVecVal(vs[-1], n)
@@ -379,11 +391,11 @@ def _bin(op, a, b):
     if (a.op == 'ite' or b.op == 'ite') and op in ('bvadd', 'bvsub', 'bvmul', 'bvand', 'bvor'):
         a, b = _compact2(a, b)
         ca, cb = _ctree(a), _ctree(b)
-        if ca and cb and ca * cb > CT_MAX:
+        if ca and cb and not _liftable(ca, cb):
             r = _bin_by_values(op, a, b)
             if r is not None:
                 return r
-        if ca and cb and ca * cb <= CT_MAX:
+        if _liftable(ca, cb):
             return _lift2(lambda x, y: _bin(op, x, y), op, a, b)
     if op == 'bvadd':
         if a.op == 'bv' and a.p == 0:
@@ -438,7 +450,7 @@ def _cmp(op, a, b):
     if a.op == 'ite' or b.op == 'ite':
         a, b = _compact2(a, b)
         ca, cb = _ctree(a), _ctree(b)
-        if ca and cb and ca * cb <= CT_MAX:
+        if _liftable(ca, cb):
             return _lift2(lambda x, y: _cmp(op, x, y), op, a, b)
     if a is b:
         return BoolVal(op in ('bvule', 'bvsle'))
@@ -503,7 +515,7 @@ def Eq(a, b):
         # eq over constant trees folds into a condition over the selectors
         a, b = _compact2(a, b)
         ca, cb = _ctree(a), _ctree(b)
-        if ca and cb and ca * cb <= CT_MAX:
+        if _liftable(ca, cb):
             return _lift2(lambda x, y: x is y, '=', a, b)
     if a.id > b.id:
         a, b = b, a
@@ -594,14 +606,14 @@ def If(c, a, b):
         return a
     if a.srt != 0:
         ca, cb = _ctree(a), _ctree(b)
-        if ca and cb and ca + cb > CT_MAX:
+        if ca and cb and ca + cb > CT_BIG:
             # one leaf per distinct value keeps the merged term a constant tree
             vs = sorted(leaves(a) | leaves(b))
-            if len(vs) <= CT_MAX:
+            if len(vs) <= 2 * CT_VALS:
                 r = BitVecVal(vs[-1], a.srt)
                 for v in reversed(vs[:-1]):
                     cv = BitVecVal(v, a.srt)
-                    r = If(If(c, Eq(a, cv), Eq(b, cv)), cv, r)
+                    r = If(If(c, _eq_const(a, cv), _eq_const(b, cv)), cv, r)
                 return r
     return _mk('ite', (c, a, b), a.srt)
 
